@@ -76,6 +76,7 @@ type Result struct {
 	Panic        string   `json:"panic,omitempty"`
 	InputChanged bool     `json:"inchg,omitempty"`
 	MemoEntries  int      `json:"memo,omitempty"`
+	ChoiceEvals  int      `json:"choiceevals,omitempty"` // sum of Stats.ChoiceAltCnt = choice expressions actually evaluated
 	GLog         string   `json:"glog,omitempty"`
 	FinalState   string   `json:"fstate,omitempty"`
 	StateIDs     []uintptr `json:"-"`
